@@ -228,11 +228,14 @@ def applyFilters (fs : List Expr) (G : Alg) : Alg :=
   | none => G
   | some f => .filter f G [] false
 
-/-- OPTIONAL { A }: a filter at the top of A becomes the LeftJoin condition (§18.2.2.6) -/
-def mkLeftJoin (G A : Alg) : Alg :=
-  match A with
-  | .filter f A' _ _ => .leftJoin G A' f none []
-  | A => .leftJoin G A (.const (.bool true)) none []
+/-- OPTIONAL { P }: "if Translate(P) is of the form Filter(F, A2) then LeftJoin(G, A2, F) else LeftJoin(G, A, true)"
+    (§18.2.2.6).  Translate(P) is a Filter exactly when the group P itself has FILTER elements (the simplification
+    `Join(Z, A) = A` of §18.2.2.8 happens after the whole translation, so a filter of a NESTED group `{ { … FILTER } }`
+    is not hoisted): `fs` = P's own filters, `A2` = P without them. -/
+def mkLeftJoin (G : Alg) (fs : List Expr) (A2 : Alg) : Alg :=
+  match andAll fs with
+  | some f => .leftJoin G A2 f none []
+  | none => .leftJoin G A2 (.const (.bool true)) none []
 
 mutual
 def trExpr : SExpr → Expr
@@ -250,7 +253,7 @@ def trElts : Elts → Alg → Alg
   | .cons e rest, G => trElts rest (trElt e G)
 def trElt : Elt → Alg → Alg
   | .tri tps, G => mkJoin G (.bgp tps)
-  | .opt g, G => mkLeftJoin G (applyFilters (filtersOf g) (trElts g Alg.unit))
+  | .opt g, G => mkLeftJoin G (filtersOf g) (trElts g Alg.unit)
   | .minus g, G => .minus G (applyFilters (filtersOf g) (trElts g Alg.unit)) []
   | .union gs, G => mkJoin G (trUnion gs)
   | .graph p g, G => mkJoin G (.graph p (applyFilters (filtersOf g) (trElts g Alg.unit)))
